@@ -102,7 +102,27 @@ dst_row!(16, 48, D16e1, D16e2, D16e3, D16e4, D16e8, D16e24);
 dst_row!(20, 64, D20e1, D20e2, D20e3, D20e4, D20e8, D20e24);
 dst_row!(24, 80, D24e1, D24e2, D24e3, D24e4, D24e8, D24e24);
 
+/// ref_from_slice on the whole image (the caller's slice may continue behind the tag), then cast
+fn slice_cast(ctx: &Ctx, call: &Value) -> Value {
+    let r = match multiboot2::DynSizedStructure::<TagHeader>::ref_from_slice(ctx.slice()) {
+        Err(e) => return out::err(&format!("{e:?}")),
+        Ok(r) => r,
+    };
+    macro_rules! c {
+        ($t:ty) => {
+            out::some(r.cast::<$t>().describe(ctx))
+        };
+    }
+    match out::arg_str(call, "t") {
+        "s0" => c!(S0), "s1" => c!(S1), "s2" => c!(S2), "s3" => c!(S3), "s4" => c!(S4), "s5" => c!(S5), "s6" => c!(S6),
+        _ => out::unsupported(),
+    }
+}
+
 pub fn dispatch(ctx: &mut Ctx, op: &str, call: &Value) -> Option<Value> {
+    if op == "slice_cast" {
+        return Some(slice_cast(ctx, call));
+    }
     if op != "custom_get" {
         return None;
     }
